@@ -89,6 +89,24 @@ func (p *Program) VerifyFunc(fc *FuncContract) (res *FuncResult) {
 			}
 		}
 	}
+	for at, m := range fc.UseEnsuresAt {
+		found := false
+		for _, e := range fc.Ensures {
+			if e.Label == at {
+				found = true
+			}
+		}
+		if !found {
+			res.Err = fmt.Errorf("%s:%d: useensures @%s: no postcondition with that label", fc.File, fc.Line, at)
+			return
+		}
+		for name := range m {
+			if p.Contracts.Funcs[name] == nil {
+				res.Err = fmt.Errorf("%s:%d: useensures names a function without contract: %s", fc.File, fc.Line, name)
+				return
+			}
+		}
+	}
 	x := newExec(p, fc)
 	res.X = x
 	defer func() {
@@ -182,6 +200,7 @@ func (p *Program) VerifyFunc(fc *FuncContract) (res *FuncResult) {
 	ce := &CEnv{x: x, fr: fr, st: fr.entry, old: fr.entry, vars: vars, guard: x.b.True, fc: fc}
 	x.evalLets(ce, fc)
 	fr.lets = ce.lets
+	x.rootVars, x.rootLets, x.rootEntry = vars, ce.lets, fr.entry
 	ce.hypo = true
 	for _, r := range fc.Requires {
 		x.axiom(x.evalBool(ce, r))
@@ -403,6 +422,33 @@ func (r *FuncResult) SMTTextWith(o *Obligation, extra []*smt.Term, filter bool) 
 			seenH[h.ID] = true
 			hyps = append(hyps, h)
 		}
+	}
+	if x.rootC != nil && (x.rootC.UseEnsuresAt != nil || x.rootC.UseEnsures != nil) && len(x.hypTag) > 0 {
+		// selection of the callee postconditions that are used: the default set
+		// (useensures), overridden per own postcondition (useensures @label)
+		var sel map[string]map[string]bool
+		if strings.HasPrefix(o.Name, "post:") {
+			lab := strings.TrimPrefix(o.Name, "post:")
+			if i := strings.IndexAny(lab, "@"); i >= 0 {
+				lab = lab[:i]
+			}
+			sel = x.rootC.UseEnsuresAt[lab]
+		}
+		var kept []*smt.Term
+		for _, h := range hyps {
+			if tg, ok := x.hypTag[h.ID]; ok {
+				cn := normalizeFuncName(tg[0])
+				if allowed, has := sel[cn]; has {
+					if !allowed[tg[1]] {
+						continue
+					}
+				} else if def, has := x.rootC.UseEnsures[cn]; has && !def[tg[1]] {
+					continue
+				}
+			}
+			kept = append(kept, h)
+		}
+		hyps = kept
 	}
 	if filter && x.rootC != nil && x.rootC.Opts["nofilter"] == "" {
 		memo := map[int][]int{}
@@ -741,7 +787,9 @@ func (x *Exec) frameSpecOf(fr *Frame, entry *CEnv, fc *FuncContract) *frameSpec 
 	ce := &CEnv{x: x, fr: fr, st: fr.entry, old: fr.entry, vars: entry.vars, lets: entry.lets, guard: x.b.True, fc: fc, env: entry.env}
 	for _, k := range strings.Fields(strings.ReplaceAll(fc.Assigns, ",", " ")) {
 		if as := x.assignLoc(ce, k); as != nil {
-			fs.cells[as.key] = append(fs.cells[as.key], as)
+			for ; as != nil; as = as.next {
+				fs.cells[as.key] = append(fs.cells[as.key], as)
+			}
 			continue
 		}
 		x.registerGhost(k)
